@@ -13,19 +13,27 @@ DESIGN_REF = "§5 C35"
 TECHNIQUE = ("Coq proof over C08's chunk graphs (pull = closure of the heads minus the sink, copied in any batch order; ref update = "
              "compare-and-set guarded by data completeness and the fast-forward check; invariant over every prefix of every interleaving of "
              "transfer steps) + in-Coq correspondence on graphs exported by the real walker, with file:// remotes driven through SQL")
-LEVEL_TEXT = ("Proof (F/M): pull_complete (after the missing closure has been copied, in any batches and order, every chunk reachable from the "
-              "transferred heads is at the destination), ref_after_data (in every prefix of every interleaving of copy and ref-update steps every "
-              "destination ref is backed by its complete closure), push_cas (two updates against the same expected head cannot both succeed), "
-              "ff_only_keeps_history (a non-forced successful update keeps every commit of the old head reachable).")
-LEVEL_NOTE = ("Trusted: Coq kernel, Go harness + Python glue. Modelled, not verified: the puller's pruning by HasMany at the sink is modelled as "
-              "'closure minus sink' (sound when the sink is closed, C07); table-file upload, manifest update and the remote's ref CAS are atomic "
-              "steps; gRPC/HTTP remotes, retries and interrupted uploads are not exercised by the harness (file:// remotes only).")
-THEOREMS = ["pull_complete", "ref_after_data", "push_cas", "ff_only_keeps_history"]
+LEVEL_TEXT = ("Proof (F/M): pull_complete (the HasMany-pruned walk of the puller — an address the sink already has is neither fetched nor "
+              "expanded — brings every chunk reachable from the heads PROVIDED the sink is closed under references (C07); "
+              "pruning_needs_closed_sink shows the hypothesis cannot be dropped; pull_need_minimal: nothing superfluous is fetched; "
+              "pull_add_accepted: the fetched files pass the reference check of AddTableFilesToManifest), ref_after_data (for every list of "
+              "add-files / ref-update steps and every prefix of it — every interruption point of any number of interleaved transfers — the "
+              "destination stays closed and every ref is backed by its whole closure), push_complete, push_cas (two updates against the same "
+              "expected head cannot both succeed), ff_only_keeps_history.")
+LEVEL_NOTE = ("Trusted: Coq kernel, Go harness + Python glue. Modelled, not verified: table-file upload and manifest update are atomic steps "
+              "guarded by the reference check; the remote's ref update is a compare-and-set whose new root must be present. Tied to the code by "
+              "(a) push/clone/pull/forced and racing pushes through SQL over file:// remotes and (b) failure injection on the real code path "
+              "(dbfactory scheme wrapping the remote's chunk store: HasMany, WriteTableFile before/mid/after, AddTableFilesToManifest "
+              "before/after, Commit before/after, GetManyCompressed after k chunks, Sources/Open) with the destination examined after every "
+              "injected failure. gRPC/HTTP remotes and retries/back-off are not exercised.")
+THEOREMS = ["pull_complete", "pull_complete_batches", "pull_need_minimal", "pruning_needs_closed_sink", "pull_add_accepted",
+            "ref_after_data", "push_complete", "push_cas", "ff_only_keeps_history", "data_complete_spec"]
 RULE = ("source repositories from C09's recipe options (tags, stashes, foreign keys, secondary indexes, out-of-band values, 3..400 rows, merge "
         "commits); schedule push×2, clone, commit+push+pull, divergent push (must be refused), forced push, and (half of the cases) two "
         "concurrent pushes against one head; non-trivial = universe of at least 20 chunks; distinct by recipe")
 ASSUMPTIONS = ["file:// remotes in temp directories, single process", "in-progress merge/rebase state is local and is not transferred"]
-REQUIRED_TAGS = ["race", "race-one-winner", "nonff-refused", "clone-equal", "pull-equal", "multi-level"]
+REQUIRED_TAGS = ["race", "race-one-winner", "nonff-refused", "clone-equal", "pull-equal", "multi-level",
+                 "interrupt", "int-push-data-no-ref", "int-push-ref-moved", "int-fetch", "int-pull", "int-clone", "int-all-fired"]
 HARNESS_TIMEOUT = 2400
 COQ_SHARD = 8
 
@@ -38,10 +46,18 @@ def gen_cases(rng, tier):
         for k in ("tag", "stash", "fk", "idx", "blob"):
             c[k] = rng.random() < 0.5
         cases.append(c)
+    # interrupted transfers on the real code: every injected failure point of push (sink side: HasMany, WriteTableFile
+    # before/mid/after, AddTableFilesToManifest before/after, Commit before/after), fetch and pull (source side: HasMany,
+    # GetManyCompressed after k chunks), clone (Sources, Open)
+    for j in range(2 if tier == "quick" else 30):
+        c = {"scn": "plain", "rows": rng.choice([3, 5, 30]), "interrupt": True}
+        for k in ("tag", "fk", "idx", "blob"):
+            c[k] = rng.random() < 0.5
+        cases.append(c)
     return cases
 
 
-BAD = ("({| i_universe := []; i_heads := [1]; i_remote_has := [] |}, {| o_refs_match := false; o_closed := false; o_clone_equal := false; "
+BAD = ("({| i_universe := []; i_heads := [1]; i_remote_has := []; i_points := [] |}, {| o_refs_match := false; o_closed := false; o_clone_equal := false; "
        "o_pull_equal := false; o_nonff_refused := false; o_force_ok := false; o_race_ok := false |})")
 
 
@@ -50,9 +66,10 @@ def coq_case(case, out):
     if o is None or out.get("panic") or out.get("err") or not o.get("graph"):
         return BAD
     g = cq_list("(%d, %s)" % (r[0], cq_list(str(x) for x in r[1:])) for r in o["graph"])
-    return ("({| i_universe := %s; i_heads := %s; i_remote_has := %s |}, {| o_refs_match := %s; o_closed := %s; o_clone_equal := %s; "
+    pts = cq_list("(%s, %s)" % (cq_list(str(x) for x in p["present"]), cq_list(str(x) for x in p["heads"])) for p in (o.get("points") or []))
+    return ("({| i_universe := %s; i_heads := %s; i_remote_has := %s; i_points := %s |}, {| o_refs_match := %s; o_closed := %s; o_clone_equal := %s; "
             "o_pull_equal := %s; o_nonff_refused := %s; o_force_ok := %s; o_race_ok := %s |})") % (
-        g, cq_list(str(x) for x in o["heads"]), cq_list(str(x) for x in o["remote_has"]),
+        g, cq_list(str(x) for x in o["heads"]), cq_list(str(x) for x in o["remote_has"]), pts,
         cq_bool(o["refs_match"]), cq_bool(o["closed"]), cq_bool(o["clone_equal"]), cq_bool(o["pull_equal"]),
         cq_bool(o["nonff_refused"]), cq_bool(o["force_ok"]), cq_bool(o["race_ok"]))
 
@@ -78,6 +95,21 @@ def classify(case, out):
         t.append("multi-level")
     if o.get("script_errs"):
         t.append("script-error")
+    pts = o.get("points") or []
+    if case.get("interrupt"):
+        t.append("interrupt")
+        ops = {p["op"] for p in pts}
+        if any(p["op"].startswith("push") and p["fail"].startswith("add-after") and p["present"] for p in pts):
+            t.append("int-push-data-no-ref")      # data added, failure reported, ref not moved
+        if any(p["op"].startswith("push") and p["fail"].startswith("commit-after") for p in pts):
+            t.append("int-push-ref-moved")        # ref moved at the remote, failure reported to the client
+        for op in ("fetch", "pull", "clone"):
+            if op in ops:
+                t.append("int-" + op)
+        if sum(1 for p in pts if p["fired"]) >= 25:
+            t.append("int-all-fired")
+        if any(not p["fired"] and p["fail"] != "none" for p in pts):
+            t.append("int-some-not-reached")
     return t
 
 
